@@ -40,6 +40,16 @@ LFRIC_KERNELS = {
     "tkq": ("testkern_qr_mod", "testkern_qr_type", "testkern_qr_code", 7),
 }
 LFRIC_EXTRA = {"tks", "tkx", "tkq"}
+# kernels with several quadrature shapes in every metadata order: variants of
+# testkern_2qr_mod written into the private kernel directory
+_QSHAPE = {"x": "gh_quadrature_xyoz", "f": "gh_quadrature_face",
+           "e": "gh_quadrature_edge"}
+_QORDERS = ["ef", "fe", "xe", "ex", "xf", "fx",
+            "xfe", "xef", "fxe", "fex", "exf", "efx"]
+for _o in _QORDERS:
+    LFRIC_KERNELS["q_" + _o] = ("c24q_%s_mod" % _o, "c24q_%s_type" % _o,
+                                "c24q_%s_code" % _o, 4 + len(_o))
+    LFRIC_EXTRA.add("q_" + _o)
 LFRIC_KERNEL_FILES = ["testkern_mod.F90", "testkern_w2_only_mod.f90",
                       "testkern_stencil_mod.f90",
                       "testkern_stencil_xory1d_mod.f90", "testkern_qr_mod.F90"]
@@ -86,11 +96,13 @@ LFRIC_PRELUDE_EXTRA = '''\
   real(r_def) :: x1, p_x, xv(2)
   integer(i_def) :: n1, n2, d1, i1, nv(2)
   type(quadrature_xyoz_type) :: qr, qr2
+  type(quadrature_face_type) :: qf
+  type(quadrature_edge_type) :: qe
 '''
 # the base names the prelude declares (a shape using anything else is a
 # machinery error: the universe of the specification and the renderer differ)
 _KNOWN_BASES = {"f1", "f2", "m1", "m2", "m3", "p_q", "fv", "st", "p", "x1",
-                "p_x", "xv", "n1", "n2", "d1", "i1", "nv", "qr", "qr2",
+                "p_x", "xv", "n1", "n2", "d1", "i1", "nv", "qr", "qr2", "qf", "qe",
                 "x_direction", "y_direction"}
 _RE_LIT = re.compile(r"^[+-]?(\d+\.?\d*|\.\d+)([ed][+-]?\d+)?(_\w+)?$", re.I)
 
@@ -123,6 +135,18 @@ def prepare_kernels(tmp):
         os.makedirs(kdir)
         for name in LFRIC_KERNEL_FILES:
             shutil.copy(os.path.join(lfric_dir(), name), kdir)
+        with open(os.path.join(lfric_dir(), "testkern_2qr_mod.F90")) as f:
+            base = f.read()
+        line = [ln for ln in base.splitlines() if "gh_shape" in ln]
+        if len(line) != 1:
+            raise core.MachineryError("testkern_2qr_mod: gh_shape line")
+        for order in _QORDERS:
+            text = base.replace(line[0], "     integer :: gh_shape(%d) = (/ %s /)"
+                                % (len(order),
+                                   ", ".join(_QSHAPE[c] for c in order)))
+            text = text.replace("testkern_2qr", "c24q_" + order)
+            with open(os.path.join(kdir, "c24q_%s_mod.F90" % order), "w") as f:
+                f.write(text)
     return kdir
 
 
@@ -159,6 +183,8 @@ def render_lfric(shape):
     src += "  use field_mod, only: field_type\n"
     if extra:
         src += "  use quadrature_xyoz_mod, only: quadrature_xyoz_type\n"
+        src += "  use quadrature_face_mod, only: quadrature_face_type\n"
+        src += "  use quadrature_edge_mod, only: quadrature_edge_type\n"
         src += "  use flux_direction_mod, only: x_direction, y_direction\n"
     for mod, typ in mods:
         src += "  use %s, only: %s\n" % (mod, typ)
@@ -325,7 +351,8 @@ _RE_STDOFMAP = re.compile(r"^(\w+)\s*=>\s*(\w+)\s*%\s*get_whole_dofmap\(\)$",
 _RE_QRPROXY = re.compile(r"^(\w+)\s*=\s*(\w+)\s*%\s*get_quadrature_proxy\(\)$",
                          re.I)
 _RE_QRPART = re.compile(r"^(\w+)\s*=>?\s*(\w+)\s*%\s*"
-                        r"(np_xy|np_z|weights_xy|weights_z)$", re.I)
+                        r"(np_xy|np_z|weights_xy|weights_z|np_xyz|nfaces|nedges"
+                        r"|weights_xyz)$", re.I)
 _RE_DECL = re.compile(r"^(type\(\s*\w+\s*\)|real(\(.*?\))?|integer(\(.*?\))?"
                       r"|logical(\(.*?\))?)\s*,\s*intent\(\w+\)\s*::\s*(.+)$",
                       re.I)
@@ -356,7 +383,9 @@ class _LFRicRoutine:
         spec = m.group(1).lower().replace(" ", "")
         if spec.startswith("type("):
             cls = {"type(field_type)": "field",
-                   "type(quadrature_xyoz_type)": "qr"}.get(spec, "other")
+                   "type(quadrature_xyoz_type)": "qr",
+                   "type(quadrature_face_type)": "qrf",
+                   "type(quadrature_edge_type)": "qre"}.get(spec, "other")
         elif spec.startswith("real"):
             cls = "real"
         elif spec.startswith("integer"):
